@@ -87,6 +87,10 @@ type devBatch struct {
 	// "rejected") instead of being an error: the quantifier is "configurations the parser accepts"
 	Optional bool         `json:"optional"`
 	Walks    [][]devInput `json:"walks"`
+	// OutCap > 0: the device writes into an output channel of that capacity (the application's has 8) whose reader takes
+	// SlowUs microseconds per message: back-pressure on the MIDI output, as a slow port gives
+	OutCap int `json:"outcap"`
+	SlowUs int `json:"slow_us"`
 }
 
 func keyCode(name string) (evdev.EvCode, error) {
@@ -225,16 +229,33 @@ type stateJSON struct {
 const stepTimeout = 5 * time.Second
 
 type devRun struct {
-	dev   *device.Device
-	in    chan *input.InputEvent
-	out   chan midi.Event
-	sigs  chan os.Signal
-	done  chan string // "" = returned normally, otherwise the panic text
-	sub   string
-	codes map[string]evdev.EvCode
+	dev     *device.Device
+	in      chan *input.InputEvent
+	out     chan midi.Event
+	sigs    chan os.Signal
+	done    chan string // "" = returned normally, otherwise the panic text
+	sub     string
+	codes   map[string]evdev.EvCode
+	small   chan midi.Event // tight output: what the device writes into (nil = it writes into out)
+	slow    time.Duration
+	pending []midi.Event
+}
+
+// tightOutput makes the device write into a small channel that nobody reads while an event is being handled: the
+// harness takes one message every `slow` only while it waits for the device to accept the next event (see send), so a
+// second message of a step always meets a full channel.  No background reader, no timing assumption: everything the
+// device sent for a step has been received when the step's sentinel is accepted, except what still sits in the channel.
+func (r *devRun) tightOutput(capacity int, slow time.Duration) chan midi.Event {
+	r.small = make(chan midi.Event, capacity)
+	r.slow = slow
+	return r.small
 }
 
 func newDevRun(conf config.Config, axinfo map[string]absInfo, sub string) (*devRun, error) {
+	return newDevRunOut(conf, axinfo, sub, 0, 0)
+}
+
+func newDevRunOut(conf config.Config, axinfo map[string]absInfo, sub string, outcap, slowUs int) (*devRun, error) {
 	r := &devRun{
 		in:   make(chan *input.InputEvent),
 		out:  make(chan midi.Event, 8192),
@@ -256,8 +277,12 @@ func newDevRun(conf config.Config, axinfo map[string]absInfo, sub string) (*devR
 		Handlers:   []input.Handler{{Name: sub, DeviceInfo: input.DeviceInfo{Name: "verif " + sub}}},
 		AbsInfos:   map[string]map[evdev.EvCode]evdev.AbsInfo{"": abs},
 	}
+	devOut := r.out
+	if outcap > 0 {
+		devOut = r.tightOutput(outcap, time.Duration(slowUs)*time.Microsecond)
+	}
 	d := device.NewDevice(idev, config.DeviceConfig{ConfigFile: "verif", ConfigType: "user", Config: conf},
-		r.out, nil, true, 0, r.sigs)
+		devOut, nil, true, 0, r.sigs)
 	r.dev = &d
 	go func() {
 		defer func() {
@@ -273,6 +298,30 @@ func newDevRun(conf config.Config, axinfo map[string]absInfo, sub string) (*devR
 
 // send delivers one event; it returns "" when the engine took it, or a failure text.
 func (r *devRun) send(ev *input.InputEvent) string {
+	if r.small != nil {
+		deadline := time.Now().Add(stepTimeout)
+		for {
+			select {
+			case r.in <- ev:
+				return ""
+			case msg := <-r.done:
+				r.done <- msg
+				if msg == "" {
+					return "ended: ProcessEvents returned while its input was still open"
+				}
+				return msg
+			case <-time.After(r.slow):
+				select {
+				case m := <-r.small:
+					r.pending = append(r.pending, m)
+				default:
+				}
+				if time.Now().After(deadline) {
+					return "hang: the engine did not take the next event within 5s"
+				}
+			}
+		}
+	}
 	select {
 	case r.in <- ev:
 		return ""
@@ -296,6 +345,24 @@ func (r *devRun) event(t evdev.EvType, code evdev.EvCode, val int32) *input.Inpu
 
 func (r *devRun) drain() ([][]int, int) {
 	o := [][]int{}
+	if r.small != nil {
+		for more := true; more; {
+			select {
+			case m := <-r.small:
+				r.pending = append(r.pending, m)
+			default:
+				more = false
+			}
+		}
+		for _, m := range r.pending {
+			b := make([]int, len(m))
+			for i, x := range m {
+				b[i] = int(x)
+			}
+			o = append(o, b)
+		}
+		r.pending = nil
+	}
 	for {
 		select {
 		case m := <-r.out:
@@ -366,6 +433,9 @@ func (r *devRun) step(in devInput) (stepOut, bool) {
 			ev = r.event(evdev.EV_SYN, 0, 0)
 		}
 	case "disconnect":
+		stop := make(chan struct{})
+		defer close(stop)
+		r.unblock(stop)
 		close(r.in)
 		select {
 		case msg := <-r.done:
@@ -404,8 +474,28 @@ func (r *devRun) step(in devInput) (stepOut, bool) {
 	return res, true
 }
 
+// unblock lets a device that writes into the tight output channel run to its end (nobody reads that channel otherwise)
+func (r *devRun) unblock(stop <-chan struct{}) {
+	if r.small == nil {
+		return
+	}
+	go func() {
+		for {
+			select {
+			case m := <-r.small:
+				r.out <- m
+			case <-stop:
+				return
+			}
+		}
+	}()
+}
+
 func (r *devRun) finish() {
 	defer func() { recover() }()
+	stop := make(chan struct{})
+	defer close(stop)
+	r.unblock(stop)
 	close(r.in)
 	select {
 	case <-r.done:
@@ -469,7 +559,7 @@ func cmdDevice(args []string) error {
 			}
 		}
 		for _, walk := range b.Walks {
-			r, err := newDevRun(conf, ac.Axinfo, b.Sub)
+			r, err := newDevRunOut(conf, ac.Axinfo, b.Sub, b.OutCap, b.SlowUs)
 			if err != nil {
 				return err
 			}
